@@ -304,7 +304,7 @@ def _yield_runs(cb):
     def post(eng, st, rv):
         return [("runs_cover_the_request_exactly", st.ghost["plen"] == length0)]
 
-    c = FnContract(FILE, "QCow2._yield_runs", ["C01", "C07", "C08"], lambda: RunModel(cb), params=lambda m: {"self": ObjV("self"), "offset": IntV(offset0), "length": IntV(length0)},
+    c = FnContract(FILE, "QCow2._yield_runs", ["C01", "C07", "C08", "C11"], lambda: RunModel(cb), params=lambda m: {"self": ObjV("self"), "offset": IntV(offset0), "length": IntV(length0)},
                    requires=lambda m: m.hyps + [offset0 >= 0, length0 >= 0, z3.ForAll([T], z3.And(m.L1(T) >= 0, m.L1(T) <= U64)), z3.ForAll([z3.Int("u"), T], z3.And(m.E2(z3.Int("u"), T) >= 0, m.E2(z3.Int("u"), T) <= U64))],
                    post=post, on_yield=on_yield, ghost=lambda m: {"plen": z3.IntVal(0)},
                    loops={("While", 0): LoopSpec(inv, lambda eng, st: st.env["length"].e, ghost_havoc={"plen": "int"},
@@ -886,7 +886,7 @@ def _yield_runs_ext(cb):
     def post(eng, st, rv):
         return [("runs_cover_the_request_exactly", st.ghost["plen"] == length0)]
 
-    c = FnContract(FILE, "QCow2._yield_runs", ["C01", "C07", "C08"], lambda: ExtRunModel(cb), params=lambda m: {"self": ObjV("self"), "offset": IntV(offset0), "length": IntV(length0)},
+    c = FnContract(FILE, "QCow2._yield_runs", ["C01", "C07", "C08", "C11"], lambda: ExtRunModel(cb), params=lambda m: {"self": ObjV("self"), "offset": IntV(offset0), "length": IntV(length0)},
                    requires=lambda m: [offset0 >= 0, length0 >= 0] + m.axioms(), post=post, on_yield=on_yield, ghost=lambda m: {"plen": z3.IntVal(0)}, raises={"Error": None},
                    loops={("While", 0): LoopSpec(inv, lambda eng, st: st.env["length"].e, ghost_havoc={"plen": "int"},
                                                  shapes={k: "local" for k in ("sc_type", "host_offset", "read_count", "l1_index", "l2_index", "sc_index", "offset_in_cluster", "bytes_needed", "bytes_available", "l2_offset",
